@@ -463,6 +463,66 @@ theorem simBlocksT_row (vecs : List (List Q)) (minSim : Q) (maxN : Option Nat) (
   simp only [List.getElem_map, List.getElem_range]
   exact simRowT_eq vecs minSim maxN u (nnz u) hpos (fun j hj => hle u j hu hj) (hnnz u)
 
+/-! ### the candidate neighbours of the user-user scorer -/
+
+/-- the similarities the selection works on: the product, with the user's own entry zeroed when the user is a training user -/
+def userSims (vectors : List (List Q)) (ratings : List Q) (uidx : Option Nat) : List Q :=
+  match uidx with
+  | some u => setAt (mv vectors ratings) u 0
+  | none => mv vectors ratings
+
+theorem userSims_length (vectors : List (List Q)) (ratings : List Q) (uidx : Option Nat) : (userSims vectors ratings uidx).length = vectors.length := by
+  cases uidx <;> simp [userSims, setAt, mv]
+
+/-- **the candidate neighbours are exactly the users whose similarity reaches `min_sim`** (the threshold included), each with its
+    similarity, in position order -/
+theorem userNbrsT_pairs (vectors : List (List Q)) (ratings : List Q) (uidx : Option Nat) (c : Q) :
+    (userNbrsT vectors ratings uidx c vectors.length).1.zip (userNbrsT vectors ratings uidx c vectors.length).2
+      = (enum (userSims vectors ratings uidx)).filter (fun e => decide (c ≤ e.2)) := by
+  have key : ∀ sims : List Q, sims.length = vectors.length →
+      (indexMask (List.range vectors.length) (geScalar sims c)).zip (indexMask sims (geScalar sims c)) = (enum sims).filter (fun e => decide (c ≤ e.2)) := by
+    intro sims hl
+    have := threshold_pairs sims c
+    unfold nonzero at this
+    have hm : (geScalar sims c).length = vectors.length := by simp [geScalar, hl]
+    rw [hm] at this
+    exact this
+  cases uidx with
+  | none => simpa [userNbrsT, userSims] using key (mv vectors ratings) (by simp [mv])
+  | some u => simpa [userNbrsT, userSims] using key (setAt (mv vectors ratings) u 0) (by simp [setAt, mv])
+
+theorem mem_enum_iff {α} (xs : List α) (i : Nat) (x : α) : (i, x) ∈ enum xs ↔ xs[i]? = some x := by
+  constructor
+  · intro h; simpa using mem_enum xs (i, x) h
+  · intro h
+    obtain ⟨hi, rfl⟩ := List.getElem?_eq_some_iff.mp h
+    unfold enum
+    exact List.mem_iff_getElem.mpr ⟨i, by simpa using hi, by simp⟩
+
+/-- a user is a candidate neighbour iff its similarity is at least `min_sim` -/
+theorem userNbrsT_mem (vectors : List (List Q)) (ratings : List Q) (uidx : Option Nat) (c : Q) (v : Nat) (s : Q) :
+    (v, s) ∈ (userNbrsT vectors ratings uidx c vectors.length).1.zip (userNbrsT vectors ratings uidx c vectors.length).2
+      ↔ (userSims vectors ratings uidx)[v]? = some s ∧ c ≤ s := by
+  rw [userNbrsT_pairs, List.mem_filter, mem_enum_iff]; simp
+
+/-- with a positive threshold the user is never their own neighbour -/
+theorem userNbrsT_no_self (vectors : List (List Q)) (ratings : List Q) (u : Nat) (c : Q) (hc : 0 < c) (s : Q) :
+    (u, s) ∉ (userNbrsT vectors ratings (some u) c vectors.length).1.zip (userNbrsT vectors ratings (some u) c vectors.length).2 := by
+  rw [userNbrsT_mem]
+  rintro ⟨h1, h2⟩
+  obtain ⟨hi, rfl⟩ := List.getElem?_eq_some_iff.mp h1
+  simp [userSims, setAt] at h2
+  exact absurd (lt_of_lt_of_le hc h2) (lt_irrefl _)
+
+/-- any other user's similarity is the product of the two vectors -/
+theorem userSims_other (vectors : List (List Q)) (ratings : List Q) (uidx : Option Nat) (v : Nat) (hv : uidx ≠ some v) :
+    (userSims vectors ratings uidx)[v]? = (vectors[v]?).map (fun vec => dot vec ratings) := by
+  cases uidx with
+  | none => simp [userSims, mv]
+  | some u =>
+    have : u ≠ v := by intro h; exact hv (by rw [h])
+    simp [userSims, setAt, mv, List.getElem?_set_ne this]
+
 #print axioms simRowT_eq
 #print axioms simBlocksT_eq
 #print axioms simBlocksT_row
